@@ -35,12 +35,15 @@ def derivative(poly: PolyLike, *diffvars: Union[ndpoly, str, int]) -> ndpoly:
 
     """
     poly = poly_ref = numpoly.aspolynomial(poly)
+    # positions refer to the indeterminants as the caller's polynomial lists
+    # them (alignment between the rounds may list them in another order)
+    names_ref = poly_ref.names
 
     for diffvar in diffvars:
         if isinstance(diffvar, str):
             idx = poly.names.index(diffvar)
         elif isinstance(diffvar, int):
-            idx = diffvar
+            idx = poly.names.index(names_ref[diffvar])
         else:
             diffvar = numpoly.aspolynomial(diffvar)
             exponents, names = numpoly.remove_redundant_names(
